@@ -9,6 +9,7 @@ HARNESSES = {
     'unique_seq': {'san': 'asan'},
     'bits_seq': {'san': 'asan'},
     'guard_seq': {'san': 'asan'},
+    'qs_conc': {'san': 'tsan'},
     'radix_conc': {'san': 'tsan'},
     'spin_conc': {'san': 'tsan'},
     'qs_seq': {'san': 'asan'},
@@ -348,16 +349,25 @@ PROPS['C20'] = {
 }
 
 PROPS['C11'] = {
-    'runs': [{'harness': 'qs_seq',
+    'runs': [{'harness': 'qs_conc',
+              'quick': {'enum': True, 'rc': rc(1500, sizes=[20, 60, 150], scale=2)},
+              'thorough': {'enum': True, 'rc': rc(30000, sizes=[20, 60, 150, 300], scale=2)}},
+             {'harness': 'qs_seq',
               'quick': {'rc': rc(8000, sizes=[40, 80, 160])},
               'thorough': {'rc': rc(150000, sizes=[40, 80, 160, 300]), 'fuzz': {'seconds': 120}}}],
-    'rule': 'layer 1 (whole-operation granularity, instrumented mutex): 1-3 agents, histories of online / offline / quiescent_state / await_barrier(fresh node) / run / '
+    'rule': 'layer 2 (atomic/lock granularity, harness-owned scheduler, TSan, std::atomic inside qs.hpp interposed with the same memory orders, sched_mutex as domain mutex): 2-3 agent threads - an updater that '
+            'replaces heap objects in shared slots and registers a barrier whose callback overwrites the old object, readers that load a slot (acquire), read the object\'s plain '
+            'fields and later report a quiescent state or go offline/online, and (3 agents) a third agent that registers barriers of its own and cycles, so that periods are closed by '
+            'a different agent than the reader; every thread ends with a fair tail (quiescent_state + run until nothing is pending); layer 3: depth-first enumeration of the '
+            'interleavings of small 2-agent scripts. Oracle: the layer-1 conditions on the serialised event order, a reader never sees an overwritten object, zero TSan reports (the '
+            'reader\'s plain reads before its quiescent state must happen-before the callback\'s writes), no deadlock, completion within the step limit. '
+            'layer 1 (whole-operation granularity, instrumented mutex): 1-3 agents, histories of online / offline / quiescent_state / await_barrier(fresh node) / run / '
             'quiescent_barrier (only when the caller is the only online agent), followed by a fair tail of 8 rounds in which every online agent reports a quiescent state and '
             'every agent calls run(). Oracle per barrier: S = agents online at registration; the callback may only run inside run() of the registering agent, at most once, and '
             'only when every member of S has been inside quiescent_state() or offline since the registration; the callback frees its node (ASan sees any later touch by the '
             'library); every operation leaves the domain mutex free and never locks it twice; after the fair tail every registered callback has run. Non-trivial: a barrier '
             'was registered while another was pending, or an agent joined or left while a barrier was pending; distinct = hash of the decoded history.',
-    'required_tags': ['join-while-barrier-pending', 'leave-while-barrier-pending', 'two-barriers-pending', 'quiescent_barrier', 'tail-rounds-2', 'has-barrier'],
+    'required_tags': ['join-while-barrier-pending', 'leave-while-barrier-pending', 'two-barriers-pending', 'quiescent_barrier', 'tail-rounds-2', 'has-barrier', 'third-agent-registered-barriers', 'several-barriers', 'switches-20+'],
     'min_cases': {'quick': 30000, 'thorough': 500000},
     'level_text': 'generated agent histories against a grace-period oracle and a bounded fair-tail liveness horizon; sequentially consistent schedules only; held on everything generated',
     'level_note': 'liveness is "within 8 fair rounds"; histories in which offline() hits the documented TODO assertion (agent with a deferred grace period) are discarded and counted; at least one agent is online during the tail',
